@@ -366,6 +366,28 @@ Definition map_line (l : str) : fail + (Z * Z) :=
   | _ => inl (Rej K_map_fields)
   end.
 
+(* the same line with its genetic position: GeneticMarker(chrom, float(data[2]), int(data[3]), prev) *)
+Record mk := mkmk { k_chrom : Z; k_cm : Q; k_bp : Z }.
+Definition map_line3 (l : str) : option mk :=
+  match split_ws l with
+  | [c; _; m; b] =>
+      match (if str_eqb c [88] then Some 23 else parse_int c) with
+      | None => None
+      | Some ch =>
+          match parse_float m with
+          | None => None
+          | Some q => match parse_int b with
+                      | None => None
+                      | Some bp => Some (mkmk ch q bp)
+                      end
+          end
+      end
+  | _ => None
+  end.
+(* the markers of one map file (empty when some line is not a marker: [map_lines] fails then) *)
+Definition file_mks (f : str * list str) : list mk :=
+  match parse_all map_line3 (snd f) with Some l => l | None => [] end.
+
 Fixpoint map_lines (ls : list str) : fail + list (Z * Z) :=
   match ls with
   | [] => inr []
